@@ -81,6 +81,7 @@ class Translator:
         self.classes = {}       # name -> ClassInfo
         self.functions = {}     # name -> FunctionDef (module level)
         self.globals = {}       # name -> python value (int / tuple of ints)
+        self.global_module = {}
         self.ids = dict(K)
         self.skipped = []
         self.used_names = set()
@@ -107,6 +108,7 @@ class Translator:
                         if targets[0].id in self.globals:
                             raise TranslationError(f'global {targets[0].id} assigned twice')
                         self.globals[targets[0].id] = v
+                        self.global_module[targets[0].id] = m
 
     def literal(self, node):
         if isinstance(node, ast.Constant) and type(node.value) in (int, bool, str) or \
@@ -857,10 +859,10 @@ class Translator:
                 f'({self.ident(ci.name)}, {{ name := {self.chars(ci.name)}, base := {base}, members := {members}, '
                 f'fields := {self.elist(fields)}, isEnum := {"true" if ci.is_enum else "false"}, '
                 f'isDataclass := {"true" if ci.is_dataclass else "false"}, methods := {self.elist(methods.get(ci.name, []))} }})')
-        globs = []
+        globs = {g: [] for g, _, _ in self.GROUPS}
         for gl, v in self.globals.items():
             try:
-                globs.append(f'({self.ident(gl)}, {self.val(v)})')
+                globs[group_of_module[self.global_module[gl]]].append(f'({self.ident(gl)}, {self.val(v)})')
             except Skip:
                 pass
         files = {}
@@ -877,8 +879,8 @@ class Translator:
             out += defs[g]
             out.append(f'def classes{g} : List (Id × ClassDef) := [\n    ' + ',\n    '.join(classes[g]) + ']\n')
             out.append(f'def funcs{g} : List (Id × FuncDef) := [\n    ' + ',\n    '.join(t for gg, t in funcs if gg == g) + ']\n')
+            out.append(f'def globals{g} : List (Id × Val) := [\n    ' + ',\n    '.join(globs[g]) + ']\n')
             if g == 'Base':
-                out.append('def globalsBase : List (Id × Val) := [\n    ' + ',\n    '.join(globs) + ']\n')
                 out.append('/-- the value classes and the scoring functions -/')
                 out.append('def programBase : Program := { classes := classesBase, funcs := funcsBase, globals := globalsBase }\n')
             out.append(f'def skipped{g} : List (String × String) := [' +
@@ -893,7 +895,7 @@ class Translator:
                    '] ++ ' + ' ++ '.join(f'names{g}' for g in gs) + '\n')
         out.append('/-- the whole translated core: value classes, scoring, and the two state machines -/')
         out.append('def program : Program :=\n  { classes := ' + ' ++ '.join(f'classes{g}' for g in gs) + ',\n    funcs := ' +
-                   ' ++ '.join(f'funcs{g}' for g in gs) + ',\n    globals := globalsBase }\n')
+                   ' ++ '.join(f'funcs{g}' for g in gs) + ',\n    globals := ' + ' ++ '.join(f'globals{g}' for g in gs) + ' }\n')
         out.append('/-- functions of the listed modules that are outside the translated subset, with the reason -/')
         out.append('def skipped : List (String × String) := ' + ' ++ '.join(f'skipped{g}' for g in gs) + '\n')
         out.append('end Bridge.Generated.PyCore\n')
